@@ -21,15 +21,31 @@ Definition dec_spec (l : list Z) : rspec * list Z :=
     let '(optres, t1) := take_list t in
     let '(alloc, t2) := dec_res t1 in
     let '(rsvd, t3) := dec_res t2 in
-    (mkSpec uid node ph (zb term) (zb once) pol opts optres alloc rsvd (zb (hdZ t3)), tl t3)
-  | _ => (mkSpec 0 0 0 false true 0 0 [] [] [] false, [])
+    (mkSpec uid node ph (zb term) (zb once) pol opts optres alloc rsvd (zb (hdZ t3)) 0, tl t3)
+  | _ => (mkSpec 0 0 0 false true 0 0 [] [] [] false 0, [])
+  end.
+
+(* operating-mode part of a pod event: 0 | 1 ready term opts (optres) (reserved) ownbad owner *)
+Definition dec_opx (l : list Z) : option opx * list Z :=
+  match l with
+  | 0 :: t => (None, t)
+  | _ :: ready :: term :: opts :: t =>
+    let '(optres, t1) := take_list t in
+    let '(rsvd, t2) := dec_res t1 in
+    match t2 with
+    | ownbad :: owner :: t3 => (Some (mkOpx (zb ready) (zb term) opts optres rsvd (zb ownbad) owner), t3)
+    | _ => (None, [])
+    end
+  | _ => (None, [])
   end.
 
 Definition dec_pev (l : list Z) : pev * list Z :=
   match l with
   | uid :: node :: done :: rsv :: t =>
-    let '(req, t1) := dec_res t in (mkPev uid req node (zb done) rsv, t1)
-  | _ => (mkPev 0 [] 0 false 0, [])
+    let '(req, t1) := dec_res t in
+    let '(ox, t2) := dec_opx t1 in
+    (mkPev uid req node (zb done) rsv ox, t2)
+  | _ => (mkPev 0 [] 0 false 0 None, [])
   end.
 
 Definition dec_hop (l : list Z) : hop * list Z :=
@@ -116,9 +132,9 @@ Definition dec_fits (inp : list Z) : rinfo * res * res :=
     let '(rsvd, t4) := dec_res t3 in
     let '(req, t5) := dec_res t4 in
     let '(pre, _) := dec_res t5 in
-    (mkInfo (mkSpec 1 1 1 false false pol 0 [] alloc [] false) names rsvd used
+    (mkInfo (mkSpec 1 1 1 false false pol 0 [] alloc [] false 0) names rsvd used
             (map (fun j => (1000 + Z.of_nat j, [])) (seq 0 (Z.to_nat n))) false, req, pre)
-  | _ => (new_info (mkSpec 1 1 1 false false 0 0 [] [] [] false), [], [])
+  | _ => (new_info (mkSpec 1 1 1 false false 0 0 [] [] [] false 0), [], [])
   end.
 
 (* ---------- owners stream ---------- *)
